@@ -49,14 +49,18 @@ impl<const N: usize, Value> IndexMap<N, Value> {
 
     #[inline(always)]
     pub(crate) fn iter(&self) -> impl Iterator<Item = &(usize, Value)> {
-        self.values.iter()
-            .filter(|(i, _)| *unsafe {self.index.get_unchecked(*i)} != Self::NULL)
+        // an entry is live only while `index` points at it: a deleted entry that was
+        // set again leaves its old (stale) value behind in `values`
+        self.values.iter().enumerate()
+            .filter(|(pos, (i, _))| *unsafe {self.index.get_unchecked(*i)} as usize == *pos)
+            .map(|(_, entry)| entry)
     }
 
     #[inline(always)]
     pub(crate) fn into_iter(self) -> impl Iterator<Item = (usize, Value)> {
-        self.values.into_iter()
-            .filter(move |(i, _)| *unsafe {self.index.get_unchecked(*i)} != Self::NULL)
+        self.values.into_iter().enumerate()
+            .filter(move |(pos, (i, _))| *unsafe {self.index.get_unchecked(*i)} as usize == *pos)
+            .map(|(_, entry)| entry)
     }
 }
 
